@@ -15,7 +15,7 @@ CaseKeys == CaseSet
 
 KeyOf(ev) == [kind |-> ev.kind, from |-> ev.from, via |-> ev.via, to |-> ev.to,
               n |-> ev.n, alias |-> ev.alias, z0 |-> ev.z0, net |-> ev.net,
-              mag |-> ev.mag]
+              mag |-> ev.mag, pat |-> ev.pat, shape |-> ev.shape]
 
 VARIABLES l, seen
 tvars == <<l, seen>>
@@ -33,6 +33,9 @@ TCase ==
        (* point exception flags cleared / raised and after a call on a     *)
        (* singular input gave bit-identical results                        *)
        /\ Explain(ev.pure = 1, <<l, "Case", "pure", 1>>)
+       (* every cell of a separate output buffer (pre-filled with a poison  *)
+       (* pattern) was stored by the call                                  *)
+       /\ Explain(ev.allWritten = 1, <<l, "Case", "allWritten", 1>>)
        /\ seen' = seen \cup {KeyOf(ev)}
 
 TNext == l <= Len(TraceLog) /\ l' = l + 1 /\ TCase
